@@ -38,6 +38,49 @@ def targets_of(m, E, f):
     return out
 
 
+def raises_only_on_external_failure(m, F, callee):
+    """True when every throw site of `callee` is guarded by a test of the value an external (C library) call has just returned: whether
+    that exception can occur at all depends on whether the C library call can fail for the arguments it is given, which this rule
+    (an order of effects along CFG paths) does not decide."""
+    if not callee or not m.has(callee):
+        return False
+    g = m.func(callee)
+    insts = dict((i.id, i) for i in g.all_insts())
+    throws = [i for i in g.all_insts() if i.op in ('call', 'invoke') and i.callee == '__cxa_throw']
+    if not throws:
+        return False
+    preds = g.preds()
+    blocks = dict((b.id, b) for b in g.blocks)
+
+    def ext_result(v, depth=0):
+        if not (isinstance(v, list) and v and v[0] == 'v') or v[1] not in insts or depth > 3:
+            return False
+        i = insts[v[1]]
+        if i.op in ('call', 'invoke'):
+            return bool(i.callee) and not m.has(i.callee)
+        if i.op in ('zext', 'sext', 'trunc', 'icmp'):
+            return any(ext_result(a, depth + 1) for a in i.a)
+        return False
+    for t in throws:
+        seen, work, ok = set(), [t.block], False
+        while work and not ok:
+            b = work.pop()
+            if b in seen:
+                continue
+            seen.add(b)
+            for pb in preds.get(b, []):
+                term = blocks[pb].term
+                if term.op == 'br' and term.a and len(term.d.get('succ', [])) == 2:
+                    if ext_result(term.a[0]):
+                        ok = True
+                        break
+                    continue            # another condition decides: not this pattern
+                work.append(pb)
+        if not ok:
+            return False
+    return True
+
+
 def rvalues_of(f):
     roles = func_roles(f)
     return [(k, r.strip()) for k, r in enumerate(roles) if r not in (None, 'sret', 'this') and RVALUE_RE.match(r.strip())]
@@ -99,7 +142,10 @@ def check(run):
             if v:
                 p, fi, flab, li, llab = v[0]
                 callee = li.callee
-                run.ob('R18.1', short(f.dem), False,
+                soft = all(raises_only_on_external_failure(m, F, x[3].callee) for x in v)
+                run.ob('R18.1', short(f.dem), None if soft else False,
+                       ('(not decided: the exception is raised only when a C library call reports failure; whether it can for these arguments is not '
+                        'decided here) ' if soft else '') +
                        'target (%s) may already be written at %s (%s) when %s raises %s at %s' %
                        (w, f.loc(fi), flab[:70], m.dem(callee)[:70] if callee else 'a call', '/'.join(llab), f.loc(li)),
                        disc='param %d' % k, loc=f.loc(li))
